@@ -838,55 +838,29 @@ Lemma request_body_trace co so svc name args m h0 tr0 tail :
           | _ => None
           end
    end) = Some tail ->
-  exists trt, snd (service_decode_call lower io_dec so svc h0 tr0 (strip tail)) = tr0 ++ trt /\
-    (forall pre, dscopes_aux pre trt =
-       match scopes_aux (map snd pre) tail with
-       | first :: others => (rev pre ++ map (fun w => (c_simple co, w)) (skipn (length pre) first))
-                            :: map (map (fun w => (c_simple co, w))) others
-       | [] => []
-       end) /\
-    Forall (fun sc => scope_closed sc = true) (scopes tail) /\
-    Forall (fun o => match o with OVal w => (c_simple co = true -> has_ref w = false) | _ => True end) tail.
+  let smp := c_simple co in
+  let nw := string_wire name in
+  (tail = [OTag t_C; OVal nw; OTag t_z] /\
+   snd (service_decode_call lower io_dec so svc h0 tr0 (strip tail)) = tr0 ++ [DNext t_C; DRead smp nw]) \/
+  (exists aw, tail = [OTag t_C; OVal nw; OReset; OVal aw; OTag t_z] /\
+     snd (service_decode_call lower io_dec so svc h0 tr0 (strip tail)) =
+       tr0 ++ [DNext t_C; DRead smp nw; DReset; DRead smp aw] /\
+     scope_closed [aw] = true /\ (smp = true -> has_ref aw = false)).
 Proof.
-  intros Hlk Hflag Ht.
+  intros Hlk Hflag Ht smp nw.
   destruct args as [|a args].
-  - inversion Ht; subst tail. cbn [strip]. unfold service_decode_call.
-    change (Byte.eqb t_C t_C) with true. cbn iota. rewrite dec_string_wire, Hlk, Hflag.
-    eexists. split; [reflexivity|]. split; [|split].
-    + intros pre. cbn [dscopes_aux scopes_aux map snd rev]. rewrite map_length.
-      replace (skipn (length pre) (rev (map snd pre) ++ [string_wire name])) with [string_wire name].
-      * cbn [map]. reflexivity.
-      * rewrite <- (rev_length (map snd pre)) at 1. rewrite map_length. rewrite <- (map_length snd pre).
-        rewrite <- rev_length. rewrite skipn_app, skipn_all, Nat.sub_diag. reflexivity.
-    + cbn. rewrite string_wire_closed. repeat constructor.
-    + repeat constructor. intros _. apply string_wire_noref.
-  - destruct (write_top hp (S fuel) (c_simple co) einit (GSlice (a :: args))) as [st aw| |] eqn:Ea; try discriminate.
+  - left. inversion Ht; subst tail. split; [reflexivity|]. cbn [strip]. unfold service_decode_call.
+    change (Byte.eqb t_C t_C) with true. cbn iota. rewrite dec_string_wire, Hlk, Hflag. reflexivity.
+  - right.
+    destruct (write_top hp (S fuel) (c_simple co) einit (GSlice (a :: args))) as [st aw| |] eqn:Ea; try discriminate.
     inversion Ht; subst tail. destruct (write_slice_shape _ _ _ _ _ _ _ Ea) as (ws & Eaw & Hlen).
     destruct (top_scope_closed _ _ _ _ _ Ea) as [Hcl Hnr]. subst aw.
+    exists (WList ws). split; [reflexivity|]. split; [|split; [exact Hcl|exact Hnr]].
     cbn [strip]. unfold service_decode_call.
     change (Byte.eqb t_C t_C) with true. cbn iota. rewrite dec_string_wire, Hlk, Hflag.
-    assert (Htr : forall X Y : sdec, snd (match io_dec (s_dec so) (c_simple co)
-                      (if m_missing m then TIfaceSlice else TTuple (param_types m (length ws))) (WList ws) with
-                 | Some g => (X, (tr0 ++ [DNext t_C; DRead (c_simple co) (string_wire name)]) ++
-                                  [DReset; DRead (c_simple co) (WList ws)])
-                 | None => (Y, (tr0 ++ [DNext t_C; DRead (c_simple co) (string_wire name)]) ++
-                               [DReset; DRead (c_simple co) (WList ws)])
-                 end) = tr0 ++ [DNext t_C; DRead (c_simple co) (string_wire name); DReset; DRead (c_simple co) (WList ws)]).
-    { intros X Y. destruct (io_dec _ _ _ _); cbn [snd]; rewrite <- app_assoc; reflexivity. }
-    eexists. split.
-    { match goal with |- snd ?t = _ => let t' := eval cbv beta in t in change (snd t' = _) end.
-      destruct (io_dec (s_dec so) (c_simple co)
-                  (if m_missing m then TIfaceSlice else TTuple (param_types m (length ws))) (WList ws));
-        cbn [snd]; rewrite <- app_assoc; reflexivity. }
-    clear Htr. split; [|split].
-    + intros pre. cbn [dscopes_aux scopes_aux map snd rev app].
-      replace (skipn (length pre) (rev (map snd pre) ++ [string_wire name])) with [string_wire name].
-      * cbn [map]. reflexivity.
-      * rewrite <- (map_length snd pre). rewrite <- rev_length.
-        rewrite skipn_app, skipn_all, Nat.sub_diag. reflexivity.
-    + unfold scopes. cbn [scopes_aux rev app].
-      constructor; [apply name_scope_closed|]. constructor; [exact Hcl|constructor].
-    + repeat constructor; [intros _; apply string_wire_noref | exact Hnr].
+    destruct (io_dec (s_dec so) (c_simple co)
+                (if m_missing m then TIfaceSlice else TTuple (param_types m (length ws))) (WList ws));
+      cbn [snd]; rewrite <- app_assoc; reflexivity.
 Qed.
 
 Theorem request_aligned : forall co so svc name args h ops m,
@@ -918,54 +892,28 @@ Proof.
   - cbn [strip app]. destruct Htail as (nw & r & Est). rewrite Est.
     rewrite read_headers_skip by reflexivity. rewrite <- Est.
     rewrite Hnil in *. cbn [conv_headers map] in Hflag.
-    destruct (request_body_trace co so svc name args m [] [] tail Hlk Hflag Etail) as (trt & -> & Hsc & Hcl & Hnr).
-    cbn [app]. unfold aligned, dscopes, scopes. rewrite (Hsc []). cbn [map snd rev app length skipn].
-    destruct (scopes_aux [] tail) as [|first others] eqn:Es.
-    + repeat split; constructor.
-    + split; [|split].
-      * cbn [map]. rewrite map_map. cbn [snd]. rewrite map_id. f_equal.
-        rewrite map_map. erewrite map_ext; [apply map_id|]. intros l. rewrite map_map. cbn [snd]. apply map_id.
-      * unfold scopes in Hcl. rewrite Es in Hcl. exact Hcl.
-      * assert (Hall : Forall (Forall (fun w => c_simple co = true -> has_ref w = false)) (scopes_aux [] tail)).
-        { clear - Hnr. unfold scopes. generalize (@nil wire) (Forall_nil (fun w => c_simple co = true -> has_ref w = false)).
-          induction tail as [|o tail IH]; intros cur Hcur; cbn [scopes_aux].
-          - constructor; [|constructor]. apply Forall_rev. exact Hcur.
-          - inversion Hnr; subst. destruct o.
-            + apply IH; auto.
-            + apply IH; auto.
-            + constructor; [apply Forall_rev; exact Hcur|]. apply IH; auto. }
-        rewrite Es in Hall. inversion Hall; subst.
-        constructor.
-        -- apply Forall_map. eapply Forall_impl; [|exact H2]. intros w Hw. apply readable_mode. exact Hw.
-        -- apply Forall_map. eapply Forall_impl; [|exact H3]. intros l Hl.
-           apply Forall_map. eapply Forall_impl; [|exact Hl]. intros w Hw. apply readable_mode. exact Hw.
+    destruct (request_body_trace co so svc name args m [] [] tail Hlk Hflag Etail)
+      as [[-> ->]|(aw & -> & -> & Hcl & Hnr)]; cbn [app]; unfold aligned, dscopes, scopes;
+      cbn [dscopes_aux scopes_aux rev app map snd].
+    + split; [reflexivity|]. split.
+      * constructor; [apply name_scope_closed|constructor].
+      * repeat constructor. apply readable_noref. apply string_wire_noref.
+    + split; [reflexivity|]. split.
+      * constructor; [apply name_scope_closed|]. constructor; [exact Hcl|constructor].
+      * repeat constructor; [apply readable_noref; apply string_wire_noref | apply readable_mode; exact Hnr].
   - pose proof (Hhdrs (s_dec so) (c_simple co) false h1 _ _ _ ltac:(intros Hx; discriminate) Hfit1 Ehw) as Hdh.
     fold (conv_headers (s_dec so) h1) in Hdh.
     cbn [strip app]. rewrite read_headers_H, Hdh.
-    destruct (request_body_trace co so svc name args m _ [DNext t_H; DRead false hw; DReset] tail Hlk Hflag Etail)
-      as (trt & -> & Hsc & Hcl & Hnr).
     destruct (top_scope_closed _ _ _ _ _ Ehw) as [Hhcl _].
-    unfold aligned, dscopes, scopes. cbn [app dscopes_aux scopes_aux rev]. rewrite (Hsc []).
-    cbn [map snd rev app length skipn].
-    destruct (scopes_aux [] tail) as [|first others] eqn:Es.
-    + repeat split; repeat constructor. exact Hhcl.
-    + split; [|split].
-      * cbn [map snd]. f_equal. rewrite map_map. cbn [snd]. rewrite map_id. f_equal.
-        rewrite map_map. erewrite map_ext; [apply map_id|]. intros l. rewrite map_map. cbn [snd]. apply map_id.
-      * constructor; [exact Hhcl|]. unfold scopes in Hcl. rewrite Es in Hcl. exact Hcl.
-      * assert (Hall : Forall (Forall (fun w => c_simple co = true -> has_ref w = false)) (scopes_aux [] tail)).
-        { clear - Hnr. generalize (@nil wire) (Forall_nil (fun w => c_simple co = true -> has_ref w = false)).
-          induction tail as [|o tail IH]; intros cur Hcur; cbn [scopes_aux].
-          - constructor; [|constructor]. apply Forall_rev. exact Hcur.
-          - inversion Hnr; subst. destruct o.
-            + apply IH; auto.
-            + apply IH; auto.
-            + constructor; [apply Forall_rev; exact Hcur|]. apply IH; auto. }
-        rewrite Es in Hall. inversion Hall; subst.
-        constructor; [repeat constructor|]. constructor.
-        -- apply Forall_map. eapply Forall_impl; [|exact H2]. intros w Hw. apply readable_mode. exact Hw.
-        -- apply Forall_map. eapply Forall_impl; [|exact H3]. intros l Hl.
-           apply Forall_map. eapply Forall_impl; [|exact Hl]. intros w Hw. apply readable_mode. exact Hw.
+    destruct (request_body_trace co so svc name args m _ [DNext t_H; DRead false hw; DReset] tail Hlk Hflag Etail)
+      as [[-> ->]|(aw & -> & -> & Hcl & Hnr)]; cbn [app]; unfold aligned, dscopes, scopes;
+      cbn [dscopes_aux scopes_aux rev app map snd].
+    + split; [reflexivity|]. split.
+      * constructor; [exact Hhcl|]. constructor; [apply name_scope_closed|constructor].
+      * repeat constructor. apply readable_noref. apply string_wire_noref.
+    + split; [reflexivity|]. split.
+      * constructor; [exact Hhcl|]. constructor; [apply name_scope_closed|]. constructor; [exact Hcl|constructor].
+      * repeat constructor; [apply readable_noref; apply string_wire_noref | apply readable_mode; exact Hnr].
 Qed.
 
 End C07.
